@@ -18,16 +18,18 @@ for uid, entry, fns, what, unwind in [
                       keep_bodies=fns + ["spec_leb_size"], unwind=unwind, min_obligations=10, cover_functions=[],
                       timeout=600, native=False, what=what,
                       trusted=["the decoder's bit reader prefetches 8 bytes: lemma buffers are padded (the over-read itself is C10's finding F5)"]))
-_PARKED = (Unit(
-    uid="U02.5.count_tu", prop="C02", harness="harness/c02_tu.c", entry="h_count", mode="plain",
-    functions=["count_frames_in_next_tu", "get_reorder_queue_entry", "get_reorder_queue_pos"],
-    keep_bodies=["count_frames_in_next_tu"], canaries=2, min_obligations=40, timeout=900, mem_gb=16, unwind=10,
-    cover_functions=["count_frames_in_next_tu"], cover_allow=[r"^return i;$|while \(i <"],
-    kind="bounded", bound="temporal unit of at most 8 frames (head position arbitrary in [0,2048): wrap-around included)",
-    what="exactly one displayed frame per temporal unit: entries head..head+k-2 complete and hidden, entry head+k-1 "
-         "complete and shown, wrap-around at 2048 included; 0 iff incomplete; byte total"))
-# U02.5 is parked: the harness for the 2048-slot pointer queue still produces a spurious NULL object_ptr and needs
-# ~4 min; not registered until it is sound (DESIGN §5 C02)
+for _h in (0, 1000, 2041, 2044, 2045, 2046, 2047):
+    UNITS.append(Unit(
+        uid="U02.5.count_tu.h%d" % _h, prop="C02", harness="harness/c02_tu.c", entry="h_count", mode="plain",
+        functions=["count_frames_in_next_tu", "get_reorder_queue_entry", "get_reorder_queue_pos"],
+        keep_bodies=["count_frames_in_next_tu"], defines=["TU_N=8", "HEAD_CONST=%d" % _h],
+        thorough_defines=["TU_N=12", "HEAD_CONST=%d" % _h], canaries=3, min_obligations=40, timeout=600, mem_gb=16,
+        unwind=14, backend="cadical", cover_functions=["count_frames_in_next_tu"],
+        cover_allow=[r"^return i;$|while \(i <"], kind="bounded",
+        bound="temporal unit of at most 8 frames quick / 12 thorough; queue head %d of 2048 (heads 0, 1000, 2041, "
+              "2044..2047 each have a unit, so the wrap falls at every position inside the unit)" % _h,
+        what="exactly one displayed frame per temporal unit: entries head..head+k-2 complete and hidden, entry head+k-1 complete and shown, wrap-around at 2048 included; 0 iff incomplete; byte total"))
+
 META = {"C02": {
     "level": "proof",
     "explanation": "Framing layer: inverse-pair lemmas between the encoder's writers and the decoder's readers (leb128, "
